@@ -4,6 +4,8 @@ CONSTANTS
   Obfuscations = {"none", "backslash", "named", "decimal", "hex", "hexupper", "decimalpad", "percent", "leadsp", "leadtab", "leadnl", "leadc0", "leadspent", "leadtabent", "leadnlent", "leadnbsp", "midtab", "midnl", "midtabent", "midnlent", "midcrent", "midzwsp", "doubleamp", "doublehash"}
   Positions = {"first", "middle", "colon"}
   Constructs = {"inline", "angle", "refdef", "refdefangle", "collapsed", "shortcut", "image", "imageref", "autolink", "linkify", "linktitle", "nestedimg", "footnote", "table", "deflist", "quote", "heading"}
+  Tails = {"plain", "slashnl", "slashsp", "badport", "badv6", "badpct", "ctl", "userinfo", "colononly"}
+  SimpleObf = {"none", "leadsp", "midtab", "named", "percent"}
 INIT Init
 NEXT Next
 INVARIANT TypeOK
